@@ -331,6 +331,10 @@ class UGridModel(Model):
             mesh_attrs['face_coordinates'] = 'face_x face_y'
             xy['face_x'] = xarray.DataArray(self.face_xy[:, 0], dims=[fd], attrs={'units': 'degrees_east'})
             xy['face_y'] = xarray.DataArray(self.face_xy[:, 1], dims=[fd], attrs={'units': 'degrees_north'})
+        elif e.get('dangling_face_coordinates'):
+            # the attribute survived a subsetting tool that dropped the variables it names: emsarray documents that it
+            # copes with attributes naming variables that do not exist (face centres are then the centroids)
+            mesh_attrs['face_coordinates'] = 'face_x face_y'
         if e['edge_coords'] and self.has_edges:
             mesh_attrs['edge_coordinates'] = 'edge_x edge_y'
             xy['edge_x'] = xarray.DataArray(self.edge_xy[:, 0], dims=[ed], attrs={'units': 'degrees_east'})
@@ -421,6 +425,8 @@ def make_ugrid(rng, *, mesh=None, winding=None, supplied=None, start_index=None,
         # triangles and quadrilaterals only): one more, entirely empty, column
         extra_width=int(chance(rng, 0.2)),
     )
+    if not m.encoding['face_coords'] and chance(rng, 0.15):
+        m.encoding['dangling_face_coordinates'] = True
     m.kinds = {'face': Kind('face', (names[1],), (mesh.nface,)), 'node': Kind('node', (names[0],), (mesh.nnode,))}
     if has_edges:
         m.kinds['edge'] = Kind('edge', (names[2],), (mesh.nedge,))
